@@ -243,9 +243,51 @@ func (r *rw) block(b *ast.BlockStmt) {
 	b.List = r.stmts(b.List)
 }
 
+// writeYields: insert a scheduling point before every assignment whose target lives on the heap (field, element,
+// pointee). Unsynchronised shared-memory writes thereby become visible to the explorer (reads are not instrumented).
+var writeYields bool
+
+func heapTarget(e ast.Expr) bool {
+	for {
+		p, ok := e.(*ast.ParenExpr)
+		if !ok {
+			break
+		}
+		e = p.X
+	}
+	switch e.(type) {
+	case *ast.SelectorExpr, *ast.IndexExpr, *ast.StarExpr:
+		return true
+	}
+	return false
+}
+
+func needsWriteYield(s ast.Stmt) bool {
+	if !writeYields {
+		return false
+	}
+	switch x := s.(type) {
+	case *ast.AssignStmt:
+		if x.Tok == token.DEFINE {
+			return false
+		}
+		for _, l := range x.Lhs {
+			if heapTarget(l) {
+				return true
+			}
+		}
+	case *ast.IncDecStmt:
+		return heapTarget(x.X)
+	}
+	return false
+}
+
 func (r *rw) stmts(in []ast.Stmt) []ast.Stmt {
 	var out []ast.Stmt
 	for _, s := range in {
+		if needsWriteYield(s) {
+			out = append(out, &ast.ExprStmt{X: call(sel("zzmc", "WriteYield"))})
+		}
 		out = append(out, r.stmt(s)...)
 	}
 	return out
@@ -509,6 +551,8 @@ func main() {
 		case "-out":
 			i++
 			out = args[i]
+		case "-writeyields":
+			writeYields = true
 		default:
 			pkgs = append(pkgs, args[i])
 		}
